@@ -108,7 +108,7 @@ def op_lincomb(rng, chinfo, dtype):
         al, be = int(rng.integers(-2, 3)), int(rng.integers(-2, 3))
     else:
         al, be = float(rng.standard_normal()), float(rng.standard_normal())
-    variant = rng.integers(0, 4)
+    variant = rng.integers(0, 7)
     if variant == 0:
         r = al * a + be * b
         name = 'alpha*a+beta*b'
@@ -116,14 +116,25 @@ def op_lincomb(rng, chinfo, dtype):
         r = a - b * be
         al, be = 1, -be
         name = 'a-b*beta'
-    elif variant == 2:
-        # transposed second operand with labels: addition must align by labels
+    elif variant in (2, 4, 5, 6):
+        # second operand with the same labels in a different order: binary operations must align by labels
+        # (and must do so on a copy: the operand itself keeps its leg order)
         perm = list(rng.permutation(rk))
-        bt = b.transpose(perm)
-        r = a + bt
-        al, be = 1, 1
-        name = 'a+b.transpose(labels)'
-        return Case(name, [a, bt], r, a.to_ndarray() + b.to_ndarray(), _labels(rk), a.qtotal.copy())
+        bt = gen.note_operand(b.transpose(perm))
+        if variant == 2:
+            r, exp, name = a + bt, a.to_ndarray() + b.to_ndarray(), 'a+b.transpose(labels)'
+        elif variant == 4:
+            r, exp, name = a - bt, a.to_ndarray() - b.to_ndarray(), 'a-b.transpose(labels)'
+        elif variant == 5:
+            r = a.copy(deep=True)
+            r.iadd_prefactor_other(be, bt)
+            exp, name = a.to_ndarray() + be * b.to_ndarray(), 'iadd_prefactor_other(b.transpose(labels))'
+        else:
+            r = a.binary_blockwise(np.subtract, bt)
+            exp, name = a.to_ndarray() - b.to_ndarray(), 'binary_blockwise(b.transpose(labels))'
+        c = Case(name, [a, bt], r, exp, _labels(rk), a.qtotal.copy())
+        c.kept_labels = (bt, [_labels(rk)[p] for p in perm])
+        return c
     else:
         r = a.copy(deep=True)
         r.iadd_prefactor_other(be, b)
@@ -389,6 +400,10 @@ def check_case(c, dtype):
             bad.append((f'{c.name}:labels', f'{r.get_leg_labels()} != documented {c.labels}'))
         if c.qtotal is not None and np.any(r.qtotal != c.qtotal):
             bad.append((f'{c.name}:qtotal', f'{r.qtotal} != documented {c.qtotal}'))
+    if hasattr(c, 'kept_labels'):
+        arr, labs = c.kept_labels
+        if list(arr.get_leg_labels()) != list(labs):
+            bad.append((f'{c.name}:operand-leg-order', f'operand labels now {arr.get_leg_labels()}, were {labs}'))
     if hasattr(c, 'roundtrip'):
         back, orig, labs = c.roundtrip
         if back.to_ndarray().shape != orig.shape or not np.array_equal(back.to_ndarray(), orig):
